@@ -1321,4 +1321,114 @@ theorem classValidate_ideal (ty : GType) (fa : Bool) (src : Source) :
     (try rfl) <;>
     (by_cases h : t = ty.tag <;> simp [h])
 
+/-! ### `geom_type()`, the construction of the table, the `Geometry` union (review additions) -/
+
+theorem tag_inj {a b : GType} (h : a.tag = b.tag) : a = b := by
+  have h1 := (ofTag_some a.tag a).2 rfl
+  have h2 := (ofTag_some a.tag b).2 h.symm
+  rw [h1] at h2
+  injection h2
+
+theorem membersOkB_sound (members : List Cls) (h : membersOkB members = true) : MembersOk members := by
+  unfold membersOkB at h
+  simp only [Bool.and_eq_true, List.all_eq_true, beq_iff_eq, List.contains_iff_mem] at h
+  exact ⟨fun c hc => h.1 c hc, fun ty => h.2 ty (all_mem ty)⟩
+
+theorem lookup_ideal (l : List (String × Cls))
+    (h : ∀ kc ∈ l, kc.2 = ⟨kc.2.ty, kc.2.ty.tag, kc.2.ty.tag⟩ ∧ kc.1 = kc.2.ty.tag)
+    (ty : GType) (hmem : (ty.tag, (⟨ty, ty.tag, ty.tag⟩ : Cls)) ∈ l) :
+    l.lookup ty.tag = some ⟨ty, ty.tag, ty.tag⟩ := by
+  induction l with
+  | nil => cases hmem
+  | cons kc l ih =>
+    obtain ⟨k, c⟩ := kc
+    have hh := h (k, c) (by simp)
+    simp only at hh
+    simp only [List.lookup]
+    by_cases hk : ty.tag = k
+    · have : (ty.tag == k) = true := by simpa using hk
+      simp only [this]
+      have hty : ty = c.ty := tag_inj (hk.trans hh.2)
+      rw [hh.1, ← hty]
+    · have : (ty.tag == k) = false := by simpa using hk
+      simp only [this]
+      apply ih (fun kc hkc => h kc (List.mem_cons_of_mem _ hkc))
+      rcases List.mem_cons.1 hmem with h1 | h1
+      · injection h1 with h1 _; exact absurd h1 hk
+      · exact h1
+
+theorem buildTable_wellFormed (classes : List Cls) (h : MembersOk classes) :
+    WellFormed (buildTable classes) := by
+  have hall : ∀ kc ∈ buildTable classes,
+      kc.2 = ⟨kc.2.ty, kc.2.ty.tag, kc.2.ty.tag⟩ ∧ kc.1 = kc.2.ty.tag := by
+    intro kc hkc
+    simp only [buildTable, List.mem_reverse, List.mem_map] at hkc
+    obtain ⟨c, hc, rfl⟩ := hkc
+    have := h.1 c hc
+    refine ⟨this, ?_⟩
+    simp only [Cls.geomType]
+    rw [this]
+  refine ⟨fun ty => lookup_ideal _ hall ty ?_, fun k c hk => ?_⟩
+  · simp only [buildTable, List.mem_reverse, List.mem_map]
+    exact ⟨⟨ty, ty.tag, ty.tag⟩, h.2 ty, rfl⟩
+  · have := hall (k, c) (lookup_mem _ k c hk)
+    simp only at this
+    exact (ofTag_some k c.ty).2 this.2.symm
+
+/-- if every member's outcome is either `X` or a validation error, nothing crashes, and the union
+    returns `X` as soon as one member's outcome is `X` -/
+theorem pickUnion_spec (X : R Obj) (hX : X ≠ .error .crash) (rs : List (R Obj))
+    (h : ∀ r ∈ rs, r = X ∨ r = .error .invalid) :
+    pickUnion rs = X ∨ (pickUnion rs = .error .invalid ∧ ∀ r ∈ rs, r = .error .invalid) := by
+  induction rs with
+  | nil => right; exact ⟨rfl, fun r hr => by cases hr⟩
+  | cons r rs ih =>
+    have ih' := ih (fun r' hr' => h r' (List.mem_cons_of_mem _ hr'))
+    rcases h r (by simp) with hr | hr
+    · -- the head is X
+      subst hr
+      left
+      cases hx : r with
+      | ok o =>
+        rcases ih' with h1 | ⟨h1, _⟩
+        · rw [hx] at h1; simp only [pickUnion, h1]
+        · simp only [pickUnion, h1]
+      | error e =>
+        cases e with
+        | crash => exact absurd hx hX
+        | invalid =>
+          rcases ih' with h1 | ⟨h1, _⟩
+          · rw [hx] at h1; simp only [pickUnion, h1]
+          · simp only [pickUnion, h1]
+    · subst hr
+      rcases ih' with h1 | ⟨h1, h2⟩
+      · left
+        cases hx : X with
+        | ok o => rw [hx] at h1; simp only [pickUnion, h1]
+        | error e =>
+          cases e with
+          | crash => exact absurd hx hX
+          | invalid => rw [hx] at h1; simp only [pickUnion, h1]
+      · right
+        refine ⟨by simp only [pickUnion, h1], fun r' hr' => ?_⟩
+        rcases List.mem_cons.1 hr' with h3 | h3
+        · exact h3
+        · exact h2 r' h3
+
+theorem pickUnion_of_mem (X : R Obj) (hX : X ≠ .error .crash) (rs : List (R Obj))
+    (h : ∀ r ∈ rs, r = X ∨ r = .error .invalid) (hex : X ∈ rs) : pickUnion rs = X := by
+  rcases pickUnion_spec X hX rs h with h1 | ⟨h1, h2⟩
+  · exact h1
+  · rw [h1]; exact (h2 X hex).symm
+
+/-- what one member class of the union does with a tagged mapping -/
+theorem member_outcome (ty : GType) (t : String) (r : Raw) :
+    classValidate ⟨ty, ty.tag, ty.tag⟩ false (.mapping (some t) (some r)) =
+      if ty.tag = t then (validate ty r).map fun g => (t, g) else .error .invalid := by
+  rw [classValidate_ideal]
+  by_cases h : ty.tag = t
+  · subst h; simp
+  · have : ¬ (some t = some ty.tag) := fun h' => h (by injection h' with h'; exact h'.symm)
+    simp [h, this]
+
 end SE.Validate
